@@ -52,15 +52,41 @@ def gen_case(rng, maxops):
         if rng.random() < 0.45:
             k = rng.randint(1, 3)
             p = rng.choice([0, 1, 1, 2, 2, 3, 4])   # before which atomic access of the call the releaser runs
+        # dest = the caller's handle of a live buffer (the library's tests do this for requests expected to fail)
+        live = f" live{rng.choice([0, 1, 1, 2])}" if (k == 0 and rng.random() < 0.2) else ""
         if r < 0.4:
-            ops.append(f"acq {k} {p} {_sizes(rng, n)}")
+            ops.append(f"acq {k} {p} {_sizes(rng, n)}{live}")
         elif r < 0.65:
             q = _sizes(rng, n)
             m = rng.randint(0 if rng.random() < 0.05 else 1, max(1, q)) if q > 0 else 0
-            ops.append(f"upto {k} {p} {min(m, q)} {q}")
+            ops.append(f"upto {k} {p} {min(m, q)} {q}{live}")
         else:
             ops.append("rel")
     return Case(ops, {"n": n})
+
+
+def alias_case(rng):
+    """the aliasing idiom: wrap the ring, ask for more than the gap before the tail with the handle of a live, not-oldest
+    buffer as dest (must be refused and must not touch the handle), acquire into the gap, release in order (through that
+    handle), acquire twice more; then drain and ask for the full capacity"""
+    n = rng.choice([4, 6, 8, 12, 16, 24, 32])
+    a = rng.randint(max(1, n // 3), n - 1)          # first buffer [0,a)
+    b = n - a                                        # second [a,n): the ring is full to its very end
+    c = rng.randint(1, a - 1) if a > 1 else 1        # after releasing the first: [0,c) wraps, gap = a - c - 1
+    gap = max(0, a - c - 1)
+    form = rng.choice(["upto", "upto", "acq"])
+    want = gap + rng.randint(1, 2)
+    ops = [f"init {n}", f"acq 0 0 {a}", f"acq 0 0 {b}", "rel", f"acq 0 0 {c}"]
+    if form == "upto":
+        ops.append(f"upto 0 0 {want} {want + rng.randint(0, 2)} live1")
+    else:
+        ops.append(f"acq 0 0 {want} live1")
+    ops.append("rel")
+    d = rng.randint(1, max(1, b // 2))
+    ops += [f"upto 0 0 1 {d}", f"upto 0 0 1 {max(1, b // 2)}", "rel",
+            f"acq 0 0 {rng.randint(1, n)}", f"upto 0 0 {rng.randint(1, 3)} {rng.randint(3, n + 1)}"]
+    ops += ["rel"] * 6 + [f"acq 0 0 {n}"]
+    return Case(ops, {"n": n, "alias_idiom": True})
 
 
 def exhaustive_cases(n, depth):
@@ -86,6 +112,7 @@ def exhaustive_cases(n, depth):
 
 def gen_cases(rng, tier):
     cases = [gen_case(rng, 40) for _ in range(3000 if tier == "quick" else 60000)]
+    cases += [alias_case(rng) for _ in range(400 if tier == "quick" else 5000)]
     cases += exhaustive_cases(2, 3) + exhaustive_cases(3, 2)
     if tier == "thorough":
         cases += exhaustive_cases(3, 3) + exhaustive_cases(4, 3)
@@ -163,6 +190,9 @@ def oracle(case, lines):
             # failure: when nothing was outstanding at the tail load any request <= ring must succeed
             if not seen and valid_args and lo <= n and hi >= lo:
                 errs.append(f"{op}: refused although nothing outstanding and minimum {lo} <= ring {n}")
+            l2 = nxt()
+            if l2 != "P dest_untouched=1":
+                errs.append(f"{op}: the refused request wrote to *dest (`{l2}`): a caller's live handle passed as dest is clobbered")
             if not valid_args:
                 do_rels()
         l = nxt()
@@ -176,7 +206,8 @@ def _debug_cases(rng):
     """slice for the DEBUG_BUILD flavour (the library's own pre/post-conditions active): no injected releases, because
     the assertions add atomic loads that shift the injection points; boundary-heavy sizes (full-capacity grants)"""
     cases = []
-    for c in exhaustive_cases(2, 2) + exhaustive_cases(3, 2) + [gen_case(rng, 30) for _ in range(600)]:
+    for c in exhaustive_cases(2, 2) + exhaustive_cases(3, 2) + [gen_case(rng, 30) for _ in range(600)] + \
+            [alias_case(rng) for _ in range(100)]:
         ops = []
         for o in c.ops:
             t = o.split()
@@ -235,7 +266,8 @@ def nontrivial(case):
 
 
 def distribution(cases, c_out):
-    d = {"acq": 0, "upto": 0, "rel": 0, "injected_release": 0, "ok": 0, "oom": 0, "invalid": 0}
+    d = {"acq": 0, "upto": 0, "rel": 0, "injected_release": 0, "ok": 0, "oom": 0, "invalid": 0, "dest_is_live_handle": 0,
+         "alias_idiom_cases": 0, "refused_with_live_dest": 0}
     for i, c in enumerate(cases):
         for o in c.ops:
             t = o.split()
@@ -243,6 +275,14 @@ def distribution(cases, c_out):
                 d[t[0]] += 1
             if t[0] in ("acq", "upto") and t[1] != "0":
                 d["injected_release"] += 1
+            if t[0] in ("acq", "upto") and t[-1].startswith("live"):
+                d["dest_is_live_handle"] += 1
+        d["alias_idiom_cases"] += bool(c.tags.get("alias_idiom"))
+        acq_ops = [o for o in c.ops if o.startswith(("acq", "upto"))]
+        acq_lines = [l for l in c_out.get(i, []) if l.startswith("P acq ")]
+        for o, l in zip(acq_ops, acq_lines):
+            if o.split()[-1].startswith("live") and not l.startswith("P acq OK"):
+                d["refused_with_live_dest"] += 1
         for l in c_out.get(i, []):
             if l.startswith("P acq OK"):
                 d["ok"] += 1
